@@ -475,6 +475,17 @@ func checkDispatchTable(r *Run, rule string) {
 				okRet = false
 			}
 		}
+		// the request is always handed to the session: no return of the clause comes before the Session call
+		// (the dispatcher does not pre-filter requests — limits are the session's, and the client's, business)
+		for _, ret := range returnsOf(h) {
+			if !(body == ret.Block() || body.Dominates(ret.Block())) {
+				continue
+			}
+			if !instrDominates(calls[0], ret) {
+				okRet = false
+				r.Bad(rule, key+": dispatched unconditionally", ret.Pos(), "the clause can return without calling Session."+want[kind]+": a legal request is refused by the dispatcher and never reaches the session")
+			}
+		}
 		if okRet && nRet >= 1 {
 			r.Ok(rule, key, ta.Pos())
 		} else {
